@@ -59,6 +59,9 @@ Node(k, a, b, c, d, v) == [k |-> k, a |-> a, b |-> b, c |-> c, d |-> d, v |-> v]
 NConst(v)   == Node("const", 0, 0, 0, 0, v)
 NPub(i)     == Node("pub",   0, 0, 0, 0, i)     \* i = position, 1-based
 NPriv(i)    == Node("priv",  0, 0, 0, 0, i)
+\* decompose_to_bits: a hint call node (a = decomposed expression) followed by one node per output bit
+NHCall(x)   == Node("hcall", x, 0, 0, 0, 0)
+NHOut(c, j) == Node("hout",  c, 0, 0, 0, j)
 ZERO == 1
 
 VARIABLES
@@ -204,6 +207,34 @@ Select3 == CanCall("select") /\ \E b, t, s \in Operands :
               ValueCall("select", <<b, t, s>>, SelectE(graph, b, t, s))
 
 NBools == Len(SelectSeq(calls, LAMBDA c : c.op = "abool"))
+\* decompose_to_bits(x, 2): hint with two outputs, then reconstruct_index_from_bits: per bit j
+\* define_const(2^j), assert_bool(b_j), acc = mul_add(b_j, 2^j, acc); finally connect(x, acc).
+Bits2Result(g, cn, x) ==
+    LET call == Len(g) + 1
+        b0 == call + 1
+        b1 == call + 2
+        g1 == g \o <<NHCall(x), NHOut(call, 0), NHOut(call, 1)>>
+        c1 == DefConst(g1, 1)
+        k0 == BoolE(c1.g, b0)
+        a1 == MulAddE(k0.g, b0, c1.r, ZERO)
+        c2 == DefConst(a1.g, 2 % P)
+        k1 == BoolE(c2.g, b1)
+        a2 == MulAddE(k1.g, b1, c2.r, a1.r)
+        cn1 == IF b0 = k0.r THEN cn ELSE Append(cn, <<b0, k0.r>>)
+        cn2 == IF b1 = k1.r THEN cn1 ELSE Append(cn1, <<b1, k1.r>>)
+        cn3 == IF x = a2.r THEN cn2 ELSE Append(cn2, <<x, a2.r>>)
+    IN [g |-> a2.g, cn |-> cn3, b0 |-> b0, b1 |-> b1]
+
+Bits2 ==
+    /\ CanCall("bits2")
+    /\ \E x \in Operands :
+          LET res == Bits2Result(graph, conn, x) IN
+          /\ graph' = res.g
+          /\ conn' = res.cn
+          /\ handles' = handles \o <<res.b0, res.b1>>
+          /\ calls' = Append(calls, Call("bits2", <<HandleOf(x)>>, res.b0))
+    /\ UNCHANGED <<nconn, stage, ops, w2, pubrows, privrows, nslots, rewrite>>
+
 CanConn(k) == stage = "build" /\ k \in Kinds /\ nconn + NBools < MaxConn
 
 ConnectPair(a, b) == IF a = b THEN conn ELSE Append(conn, <<a, b>>)
@@ -261,7 +292,8 @@ AllocOrder(g) ==
         privs  == SelectSeq([i \in 1..Len(g) |-> i], LAMBDA i : g[i].k = "priv")
         RECURSIVE Rest(_)
         Rest(i) == IF i > Len(g) THEN <<>>
-                   ELSE IF g[i].k \in {"const", "pub", "priv"} THEN Rest(i + 1)
+                   ELSE IF g[i].k \in {"const", "pub", "priv", "hout"} THEN Rest(i + 1)
+                   ELSE IF g[i].k = "hcall" THEN <<i + 1, i + 2>> \o Rest(i + 1)
                    ELSE IF SubFast(g, g[i]) THEN <<i, SynId(g)>> \o Rest(i + 1)
                    ELSE <<i>> \o Rest(i + 1)
     IN consts \o pubs \o privs \o Rest(1)
@@ -280,15 +312,17 @@ SlotsOfOrder(order, cn) ==
 \* op records
 OConst(out, v)        == [k |-> "Const",  a |-> None, b |-> None, c |-> None, out |-> out, io |-> None, v |-> v]
 OPublic(out, pos)     == [k |-> "Public", a |-> None, b |-> None, c |-> None, out |-> out, io |-> None, v |-> pos]
+\* Op::Hint of decompose_to_bits with two outputs: a = input slot, out / c = output slots
+OHint(inp, o0, o1) == [k |-> "Hint", a |-> inp, b |-> None, c |-> o1, out |-> o0, io |-> None, v |-> 0]
 OAlu(k, a, b, c, o, io) == [k |-> k, a |-> a, b |-> b, c |-> c, out |-> o, io |-> io, v |-> 0]
 
 LowerResult(g, cn) ==
     LET order == AllocOrder(g)
         slots == SlotsOfOrder(order, cn)
         \* position of node i's own request / of the synthetic request following node i
-        posOf == [i \in 1..Len(g) |-> CHOOSE j \in 1..Len(order) : order[j] = i]
+        posOf == [i \in 1..Len(g) |-> IF g[i].k = "hcall" THEN 0 ELSE CHOOSE j \in 1..Len(order) : order[j] = i]
         posSyn(i) == posOf[i] + 1     \* the synthetic request directly follows its sub node
-        W == [i \in 1..Len(g) |-> slots[posOf[i]]]
+        W == [i \in 1..Len(g) |-> IF g[i].k = "hcall" THEN None ELSE slots[posOf[i]]]
         consts == SelectSeq([i \in 1..Len(g) |-> i], LAMBDA i : g[i].k = "const")
         pubs   == SelectSeq([i \in 1..Len(g) |-> i], LAMBDA i : g[i].k = "pub")
         privs  == SelectSeq([i \in 1..Len(g) |-> i], LAMBDA i : g[i].k = "priv")
@@ -304,6 +338,7 @@ LowerResult(g, cn) ==
               [] n.k = "muladd" -> <<OAlu("MulAdd", W[n.a], W[n.b], W[n.c], W[i], None)>>
               [] n.k = "horner" -> <<OAlu("Horner", W[n.d], W[n.b], W[n.c], W[i], W[n.a])>>
               [] n.k = "bool"   -> <<OAlu("Bool", W[n.a], W[ZERO], W[n.a], W[i], None)>>
+              [] n.k = "hcall"  -> <<OHint(W[n.a], W[i + 1], W[i + 2])>>
               [] OTHER          -> <<>>
         RECURSIVE Emit(_)
         Emit(i) == IF i > Len(g) THEN <<>> ELSE OpsOf(i) \o Emit(i + 1)
@@ -403,10 +438,14 @@ ScanDefs(os, i, defs, bw) ==
                   d2 == ins(d1, op.out, IF op.k = "Mul" THEN Def(i, "Mul", op.a, op.b)
                                                          ELSE Def(i, "Other", None, None))
               IN ScanDefs(os, i + 1, d2, bw1)
+         ELSE IF op.k = "Hint"
+         THEN ScanDefs(os, i + 1, ins(ins(defs, op.out, Def(i, "Other", None, None)), op.c, Def(i, "Other", None, None)), bw)
          ELSE ScanDefs(os, i + 1, ins(defs, op.out, Def(i, "Other", None, None)), bw)
 
+\* slots an op writes as output (a hint writes two)
+OutsOf(op) == {op.out} \cup (IF op.k = "Hint" THEN {op.c} ELSE {})
 \* slots written by an op other than the op at index i (creator elsewhere): sound guard
-WrittenElsewhere(os, s, i) == \E j \in 1..Len(os) : j # i /\ os[j].out = s
+WrittenElsewhere(os, s, i) == \E j \in 1..Len(os) : j # i /\ s \in OutsOf(os[j])
 
 NoCand == [mi |-> 0, addend |-> None, op |-> OAlu("None", None, None, None, None, None)]
 
@@ -522,7 +561,7 @@ Finish ==
     /\ UNCHANGED <<graph, conn, handles, calls, nconn, ops, nslots, rewrite>>
 
 Next ==
-    \/ Add2 \/ Sub2 \/ Mul2 \/ Div2 \/ MulAdd3 \/ Horner4 \/ Select3
+    \/ Add2 \/ Sub2 \/ Mul2 \/ Div2 \/ MulAdd3 \/ Horner4 \/ Select3 \/ Bits2
     \/ Connect \/ AssertZero \/ AssertBool
     \/ Lower \/ Dedup \/ Fuse \/ Finish
 
@@ -553,6 +592,8 @@ DenSeq(g, env) ==
                        [] n.k = "horner" -> IF def2 /\ v(n.c) # None /\ v(n.d) # None
                                             THEN FSub(FAdd(FMul(v(n.a), v(n.b)), v(n.c)), v(n.d)) ELSE None
                        [] n.k = "bool"   -> v(n.a)
+                       [] n.k = "hcall"  -> v(n.a)
+                       [] n.k = "hout"   -> IF v(n.a) = None THEN None ELSE (v(n.a) \div (2 ^ n.v)) % 2
                IN D(i + 1, Append(acc, val))
     IN D(1, <<>>)
 
@@ -585,6 +626,9 @@ ExecOp(w, op) ==      \* Bad on any runner error
                             ELSE IF w[op.a] = 0 THEN Bad
                             ELSE SetW(w, op.b, FMul(w[op.out], FInv(w[op.a])))
       [] op.k = "Bool"   -> IF w[op.a] = None THEN Bad ELSE SetW(w, op.out, w[op.a])
+      [] op.k = "Hint"   -> IF w[op.a] = None THEN Bad
+                            ELSE LET w1 == SetW(w, op.out, w[op.a] % 2) IN
+                                 IF IsBad(w1) THEN Bad ELSE SetW(w1, op.c, (w[op.a] \div 2) % 2)
       [] op.k = "MulAdd" -> IF w[op.a] = None \/ w[op.b] = None THEN Bad
                             ELSE LET ab == FMul(w[op.a], w[op.b])
                                      w1 == IF op.io # None THEN SetW(w, op.io, ab) ELSE w IN
@@ -627,12 +671,14 @@ RunPartial(os, prow, vrow, n, rw, env, withPub, withPriv) ==
        ELSE [ok |-> TRUE, w |-> w4]
 
 \* --- what the op list alone enforces -------------------------------------------
-OpSlots(op) == { op.a, op.b, op.c, op.out, IF op.k = "Horner" THEN op.io ELSE None } \ {None}
+OpSlots(op) == IF op.k = "Hint" THEN {}     \* a hint asserts nothing
+               ELSE { op.a, op.b, op.c, op.out, IF op.k = "Horner" THEN op.io ELSE None } \ {None}
+MentionedSlots(op) == { op.a, op.b, op.c, op.out, IF op.k = "Horner" THEN op.io ELSE None } \ {None}
 
 \* Slots no op reads or writes and no input row owns: the result slot of a fused multiplication
 \* that nothing else observes.  The fused op is taken to define such a slot (ghost definition);
 \* a fused mul whose slot IS observed elsewhere leaves that slot unconstrained by the op list.
-LiveSlots(os) == UNION { OpSlots(os[i]) : i \in 1..Len(os) } \cup Range(pubrows) \cup Range(privrows)
+LiveSlots(os) == UNION { MentionedSlots(os[i]) : i \in 1..Len(os) } \cup Range(pubrows) \cup Range(privrows)
 Dead(os, s) == s # None /\ s \notin LiveSlots(os)
 
 \* relation of one op over a (partial) assignment s that covers its slots; pv = public values
@@ -644,6 +690,7 @@ OpRel(op, s, pv) ==
       [] op.k = "Bool"   -> FMul(s[op.a], FSub(s[op.a], 1)) = 0 /\ s[op.out] = s[op.a]
       [] op.k = "MulAdd" -> FAdd(FMul(s[op.a], s[op.b]), s[op.c]) = s[op.out]
       [] op.k = "Horner" -> FSub(FAdd(FMul(s[op.io], s[op.b]), s[op.c]), s[op.a]) = s[op.out]
+      [] op.k = "Hint"   -> TRUE
 
 \* all extensions of the partial assignments in S to the slots of `need` satisfying Ok
 Extend(S, need, Ok(_)) ==
@@ -675,6 +722,7 @@ SrcRel(g, i, W, s, pv) ==
       [] n.k = "muladd" -> x(i) = FAdd(FMul(x(n.a), x(n.b)), x(n.c))
       [] n.k = "horner" -> x(i) = FSub(FAdd(FMul(x(n.a), x(n.b)), x(n.c)), x(n.d))
       [] n.k = "bool"   -> FMul(x(n.a), FSub(x(n.a), 1)) = 0 /\ x(i) = x(n.a)
+      [] n.k \in {"hcall", "hout"} -> TRUE
 
 SrcHolds(g, cn, W, s, pv) ==
     /\ \A i \in 1..Len(g) : SrcRel(g, i, W, s, pv)
@@ -689,24 +737,30 @@ PubVals == [1..NPUB -> GF]
 (* and which are skipped.  Const and Public rows always create `out`.      *)
 (***************************************************************************)
 Privs == Range(privrows)
+\* hint output slots that no Const / Public op also writes (hint_output_wids)
+HintOuts(os) == UNION { OutsOf(os[i]) : i \in { j \in 1..Len(os) : os[j].k = "Hint" } }
+                \ { os[i].out : i \in { j \in 1..Len(os) : os[j].k \in {"Const", "Public"} } }
 
 \* role record of row i: state of a and c (0 skip, 1 reader, 2 creator), creator flags of b, out
 RECURSIVE RolesFold(_, _, _, _)
 RolesFold(os, i, defined, acc) ==
     IF i > Len(os) THEN [roles |-> acc, defined |-> defined]
-    ELSE LET op == os[i] IN
+    ELSE LET op == os[i]  PH == Privs \cup HintOuts(os) IN
     IF op.k \in {"Const", "Public"}
     THEN RolesFold(os, i + 1, defined \cup {op.out}, Append(acc, [a |-> 0, bc |-> FALSE, c |-> 0, oc |-> TRUE]))
+    ELSE IF op.k = "Hint"     \* hints take no part in the preprocessed columns
+    THEN RolesFold(os, i + 1, defined, Append(acc, [a |-> 0, bc |-> FALSE, c |-> 0, oc |-> FALSE]))
     ELSE
       LET outDef == op.out \in defined
           bDef == op.b \in defined
           aState == IF op.a \in defined THEN 1
-                    ELSE IF op.a \in Privs /\ ~(~outDef /\ op.a = op.out) THEN 2 ELSE 0
+                    ELSE IF op.a \in PH /\ ~(~outDef /\ op.a = op.out) THEN 2 ELSE 0
           cState == IF op.c = None THEN 0
                     ELSE IF op.c \in defined THEN 1
-                    ELSE IF op.c \in Privs /\ ~(~outDef /\ op.c = op.out) THEN 2 ELSE 0
+                    ELSE IF op.c \in PH /\ ~(~outDef /\ op.c = op.out) THEN 2 ELSE 0
           outCre == ~outDef
-          bCre == (~bDef /\ op.b \in Privs) \/ (outDef /\ ~bDef)
+          \* a hint output in the out slot makes the op backward (b is then the solved operand)
+          bCre == (~bDef /\ op.b \in Privs) \/ ((outDef \/ op.out \in HintOuts(os)) /\ ~bDef)
           d2 == defined \cup (IF outCre THEN {op.out} ELSE {}) \cup (IF bCre THEN {op.b} ELSE {})
                         \cup (IF aState = 2 THEN {op.a} ELSE {}) \cup (IF cState = 2 THEN {op.c} ELSE {})
       IN RolesFold(os, i + 1, d2, Append(acc, [a |-> aState, bc |-> bCre, c |-> cState, oc |-> outCre]))
@@ -715,7 +769,7 @@ BusOf(os) == RolesFold(os, 1, {}, <<>>)
 
 \* number of rows that create / read slot s
 Creators(os, Rl, s) ==
-    Cardinality({ i \in 1..Len(os) : os[i].out = s /\ Rl[i].oc })
+    Cardinality({ i \in 1..Len(os) : os[i].k # "Hint" /\ os[i].out = s /\ Rl[i].oc })
   + Cardinality({ i \in 1..Len(os) : IsAlu(os[i]) /\ os[i].b = s /\ Rl[i].bc })
   + Cardinality({ i \in 1..Len(os) : IsAlu(os[i]) /\ os[i].a = s /\ Rl[i].a = 2 })
   + Cardinality({ i \in 1..Len(os) : IsAlu(os[i]) /\ os[i].c = s /\ Rl[i].c = 2 })
@@ -745,7 +799,7 @@ BusWellFormed ==
 (***************************************************************************)
 \* C03: the op list alone implies the source program
 OpsImplySourceAt(pv) ==
-    \A s \in SatOps(ops, Range(w2), pv) : SrcHolds(graph, conn, w2, s, pv)
+    \A s \in SatOps(ops, Range(w2) \ {None}, pv) : SrcHolds(graph, conn, w2, s, pv)
 OpsImplySource == stage = "done" => \A pv \in PubVals : OpsImplySourceAt(pv)
 
 \* C02: values and run outcome
@@ -755,7 +809,7 @@ ValuesPreservedAt(env) ==
     LET d == DenSeq(graph, env)  r == RunOf(env) IN
     (AllDefined(d) /\ ConnectsHold(d, conn)) =>
         /\ r.ok
-        /\ \A e \in 1..Len(graph) : r.w[w2[e]] = d[e]
+        /\ \A e \in 1..Len(graph) : w2[e] # None => r.w[w2[e]] = d[e]
 
 \* a violated asserted equality makes the run fail, or leaves an op relation violated so that
 \* the produced trace cannot be proven (a violated bool check is always of the second kind)
@@ -799,7 +853,7 @@ FoldingSound ==
 
 \* structural sanity of the emitted list
 NoDanglingRewrite ==
-    stage = "done" => \A i \in 1..Len(ops) : \A s \in OpSlots(ops[i]) : ~(\E p \in rewrite : p[1] = s)
+    stage = "done" => \A i \in 1..Len(ops) : \A s \in MentionedSlots(ops[i]) : ~(\E p \in rewrite : p[1] = s)
 
 TypeOK ==
     /\ stage \in {"build", "lowered", "deduped", "fused", "done"}
